@@ -67,7 +67,8 @@ def polyline_pairs(draw, maxseg=4):
         C["P"] = [[x * g, y * g] for x, y in C["P"]]
         C["U"] = [u * ps for u in C["U"]]
     return {"A": A, "B": B, "elevate": draw(st.sampled_from([0, 0, 0, 1])), "gscale": g, "pscale": (pa, pb),
-            "history": draw(st.integers(0, 3)) == 0}
+            "history": draw(st.integers(0, 3)) == 0,
+            "noise": draw(st.sampled_from([0, 0, F(1, 2 ** 14), F(1, 2 ** 15), F(1, 2 ** 13)]))}
 
 
 def boxes_overlap(PA, PB):
@@ -139,6 +140,13 @@ def check_polylines(case, out):
         out.cls("elevated-operands")
         ea = oracle.refine_state(a, oracle.elevated_vector(a.U, 1, t), 1 + t)
         eb = oracle.refine_state(b, oracle.elevated_vector(b.U, 1, t), 1 + t)
+        noise = case.get("noise", 0)
+        if noise:
+            # nearly a polyline: one control point of the elevated representation moved by ~1e-4 (a piece that a
+            # tolerance-based simplification reduces with a visible geometric error); soundness only from here on
+            k = len(ea.P) // 2
+            ea.P[k] = (ea.P[k][0], ea.P[k][1] + noise * case.get("gscale", F(1)))
+            out.cls("nearly-reducible-operand")
         A = lib.Curve([float(u) for u in ea.U], np.array([[float(x) for x in pt] for pt in ea.P]))
         B = lib.Curve([float(u) for u in eb.U], np.array([[float(x) for x in pt] for pt in eb.P]))
         a, b = lib.state_of(A), lib.state_of(B)
@@ -187,6 +195,8 @@ def check_polylines(case, out):
     got = soundness(out, klass, pairs, a, b, A, B, snapA, snapB)
     if got is None or cls == "degenerate":
         return
+    if case.get("elevate") and case.get("noise") and a.w is None and b.w is None:
+        return  # no longer a polyline: the exact crossings above do not apply
     if (a.w is not None or b.w is not None) and not cls.startswith("disjoint"):
         # rational straight pieces: the parametrisation is not affine, Newton is not exact in one step and the pinned
         # library itself loses such crossings (A=(1,3)->(-3.5,1) w=(2,1/2), B=(-4,1/2)->(0,7/2) w=(1,2) returns ()):
